@@ -665,6 +665,27 @@ impl TypedExpr {
         env: &mut Env<Vec<GateIndex>>,
         circuit: &mut CircuitBuilder,
     ) -> Vec<GateIndex> {
+        let mut wires = self.compile_unadjusted(prg, env, circuit);
+        // A number without a type suffix is bound to a variable / element / field as a 32-bit value,
+        // but can still take on another number type where the variable is used. Its wires are
+        // adjusted here, so that every number consists of as many wires as its type has bits:
+        if let Type::Unsigned(_) | Type::Signed(_) = self.ty {
+            let bits = self.ty.size_in_bits_for_defs(prg, circuit.const_sizes());
+            if wires.len() > bits {
+                wires = wires[wires.len() - bits..].to_vec();
+            } else if wires.len() < bits {
+                extend_to_bits(&mut wires, &self.ty, bits);
+            }
+        }
+        wires
+    }
+
+    fn compile_unadjusted(
+        &self,
+        prg: &TypedProgram,
+        env: &mut Env<Vec<GateIndex>>,
+        circuit: &mut CircuitBuilder,
+    ) -> Vec<GateIndex> {
         let meta = self.meta;
         let ty = &self.ty;
         match &self.inner {
@@ -735,11 +756,10 @@ impl TypedExpr {
                 array
             }
             ExprEnum::ArrayAccess(array, index) => {
-                let (_, num_elems) = array
+                let (elem_bits, num_elems) = array
                     .ty
                     .unwrap_array_size(prg, circuit.const_sizes())
                     .expect("Found a non-array value in an array access expr");
-                let elem_bits = ty.size_in_bits_for_defs(prg, circuit.const_sizes());
                 let mut array = array.compile(prg, env, circuit);
                 let mut index = index.compile(prg, env, circuit);
                 let index_bits = Type::Unsigned(UnsignedNumType::Usize)
